@@ -32,7 +32,7 @@ type aliasRes struct {
 
 // runAlias: every pair of core scalars x core peers under out=u and out=k, and
 // every core scalar and core peer value x as both operands under k=u, out=k=u.
-func runAlias(r *verifmc.Run, im *Impl, m *memo, ks, us []Named) {
+func runAlias(r *verifmc.Run, im *Impl, m *memo, ks, us []Named, cons []Constructed) {
 	if im.SharedAlias == nil {
 		r.Vacuous("harness does not provide SharedAlias")
 		return
@@ -48,6 +48,11 @@ func runAlias(r *verifmc.Run, im *Impl, m *memo, ks, us []Named) {
 			for _, u := range us {
 				cases = append(cases, acase{mode, k, u, "shared-alias/" + mode + "/k=" + k.Name + "/u=" + u.Name})
 			}
+		}
+	}
+	for _, mode := range aliasModes {
+		for _, c := range cons {
+			cases = append(cases, acase{mode, c.K, c.U, "shared-alias/" + mode + "/k=" + c.K.Name + "/u=" + c.U.Name})
 		}
 	}
 	var diag set
@@ -87,6 +92,10 @@ func runAlias(r *verifmc.Run, im *Impl, m *memo, ks, us []Named) {
 		r.Count("aliased_calls", 1)
 		r.Count("aliased_"+c.mode, 1)
 		cls := "alias " + c.mode + ",u=" + im.P.ClassifyU(c.u.B).String() + ",k=" + im.P.ClassifyK(c.k.B)
+		if w := m.X(c.k.B, c.u.B); !xladder.IsZero(w) && im.P.InWindow(w) {
+			cls += ",out=has-noncanonical-alias"
+			r.Count("aliased_output_has_noncanonical_alias", 1)
+		}
 		rp := map[string]string{"mode": c.mode, "k": hx(c.k.B), "u": hx(c.u.B), "backend": im.Backend}
 		if x.pan != "" {
 			r.Violation("C06|"+entry+"|panic-"+verifmc.PanicClass(x.pan)+"|"+cls, c.id, "panic: "+x.pan, rp)
